@@ -192,7 +192,14 @@ def unswitch(t):
 def level_cases(lv):
     import norm
     nz = norm.Normalizer()
-    return PS.leaves(nz(unswitch(lv.ret)))
+    out = []
+    for conds, leaf in PS.leaves(nz(unswitch(lv.ret))):
+        # what holds on the way to a leaf is used inside it (`f(if found { prefix } else { all })` under `found` is f(prefix))
+        pcs = [("if", c, pol) for c, pol in conds]
+        if pcs and terms.contains(leaf, lambda z: z[0] == "ite"):
+            leaf = nz(terms.assume(leaf, pcs))
+        out.append((conds, leaf))
+    return out
 
 
 def is_propagation(leaf):
